@@ -6,7 +6,8 @@ KNOBS = {'max_tasks': 5, 'min_tasks': 2, 'fail_share': 0.2,
          'spawn_fail_share': 0.0, 'timeout_share': 0.15, 'sd_share': 0.95,
          'cancel_prob': 0.25, 'long_cancel': True, 'work_exc_prob': 0.0,
          'io_fault_prob': 0.15,
-         'rich_sds': True, 'soe_share': 0.3, 'out_bulk_prob': 0.08}
+         'rich_sds': True, 'soe_share': 0.3, 'out_bulk_prob': 0.08,
+         'preplaced_share': 0.1}
 
 
 def _nontrivial(sc, res):
